@@ -3,7 +3,7 @@
 //! The oracle is purely metamorphic (no model): all 2^|V| literal/variable variants of one expression must give
 //! the same observation and the same call log on the real code.
 use crate::api::{code_wire, compile, env_wire, exec_full, lex_obs, literal, UserFn};
-use crate::facets::pipe::queue_bytecode;
+use crate::facets::pipe::{queue_bytecode, queue_exec};
 use crate::facets::vmrun::generate;
 use crate::gen::std_bindings;
 use crate::report::{Pending, Report};
@@ -261,7 +261,10 @@ pub fn run(opts: &Opts) -> Report {
     }
     // ---- renaming a loop variable to the name of a built-in function / macro, and spelling a macro call in method
     // position, must not change the result: the compile-time evaluation of an inner closed call must not freeze
-    // what it could not resolve (real code against real code; no model request)
+    // what it could not resolve (real code against real code).  Since the model follows fix 4d08d12 (the compile-time
+    // run records, as a reserved log entry, that it met a name it could not resolve, and `checkForConst` does not fold
+    // then) both members of every pair also go through the model: result + call log (`exec`) and bytecode (`compile`),
+    // so the correspondence covers which calls are folded and which are not.
     let mut pairs: Vec<(String, String)> = vec![
         ("[1].map(sz, dyn([sz]))".into(), "[1].map(size, dyn([size]))".into()),
         ("[7].map(mx, dyn([mx]))[0][0]".into(), "[7].map(max, dyn([max]))[0][0]".into()),
@@ -273,6 +276,26 @@ pub fn run(opts: &Opts) -> Report {
         ("[coalesce(null, 2)]".into(), "dyn([[1].coalesce(null, 2)])".into()),
         ("[[1].has(1)].sort()".into(), "[[2].has(1)].sort()".into()),
         ("size([[1].has(1)]) == 1 && [[1].has(1)][0]".into(), "size(dyn([[1].has(1)])) == 1 && dyn([[1].has(1)])[0]".into()),
+        // relatives: coalesce in method position (unbound / null / failing operands), has inside a macro body,
+        // the two loop variables of reduce, nested comprehensions, a folded call next to a call that must stay
+        ("[coalesce(q, 3)][0]".into(), "dyn([[1].coalesce(q, 3)])[0]".into()),
+        ("size([coalesce(null, 'ab')])".into(), "size(dyn([[0].coalesce(null, 'ab')]))".into()),
+        ("[coalesce(m.zz, 1/z, 5)]".into(), "dyn([{}.coalesce(m.zz, 1/z, 5)])".into()),
+        ("string([coalesce()])".into(), "string(dyn([[1].coalesce()]))".into()),
+        ("[1].map(v, [has(m.a)][0])".into(), "[1].map(v, dyn([[1].has(m.a)])[0])".into()),
+        ("[has(m.a.b.c)]".into(), "dyn([m.has(m.a.b.c)])".into()),
+        ("[1, 2, 3].reduce(ac, v, size(dyn([ac, v])) + ac, 0)".into(), "[1, 2, 3].reduce(max, v, size(dyn([max, v])) + max, 0)".into()),
+        ("[1, 2].reduce(ac, v, dyn([v])[0] + ac, 0)".into(), "[1, 2].reduce(ac, size, dyn([size])[0] + ac, 0)".into()),
+        ("[1, 2].reduce(ac, v, dyn([ac, v]), [])".into(), "[1, 2].reduce(coalesce, has, dyn([coalesce, has]), [])".into()),
+        ("[[1]].map(w, w.map(sz, dyn([sz])))".into(), "[[1]].map(w, w.map(size, dyn([size])))".into()),
+        ("[1].exists(sz, dyn([sz])[0] == 1)".into(), "[1].exists(abs, dyn([abs])[0] == 1)".into()),
+        ("[2].exists_one(sz, size(dyn([sz, sz])) == 2)".into(), "[2].exists_one(filter, size(dyn([filter, filter])) == 2)".into()),
+        ("[size([1, 2]), [3].map(sz, dyn([sz]))[0][0]]".into(), "[size([1, 2]), [3].map(size, dyn([size]))[0][0]]".into()),
+        ("dyn([nosuch])".into(), "dyn([nosuch])".into()),
+        ("[dyn([1]).nosuch]".into(), "dyn([dyn([1]).nosuch])".into()),
+        ("[nosuch(1)]".into(), "dyn([nosuch(1)])".into()),
+        ("[{'a': 1}.b]".into(), "dyn([{'a': 1}.b])".into()),
+        ("[[1].nosuch(2)]".into(), "dyn([[1].nosuch(2)])".into()),
     ];
     for c in cases.iter().take(if opts.thorough { 20_000 } else { 2_500 }) {
         // generated macro expressions: the generator names loop variables v0, v1, ..; rename v0 to a function name
@@ -292,6 +315,12 @@ pub fn run(opts: &Opts) -> Report {
         let (rb, _) = run_variant(b, &binds);
         rep.count(Some(b));
         rep.bump("renaming-pairs");
+        // model comparison of both members: value-or-failure + call log, and the bytecode (what was folded)
+        for src in [a, b] {
+            queue_exec(&mut rep, &mut pending, src, 0);
+            queue_bytecode(&mut pending, src);
+            rep.bump("renaming-pairs:model-requests");
+        }
         if pa.is_none() {
             continue;
         }
